@@ -239,7 +239,7 @@ def jobs(tier, seed, excluded=()):
         slots = ST.layout(base)
         for policy in ("sdkconfig", "kconfig"):
             out += state_jobs("C08", "vk.props.c08", "clause2", [base], dom, budget * 2, nparts, tmo, rng, {"new": new, "policy": policy}, tag="c2-%s-%s" % (new.split(":")[-1], policy))
-            if True:
+            if policy == "kconfig":  # (policy sdkconfig + one operation: the all-defaults jobs below)
                 targets = [i for i, sl in enumerate(slots) if sl.kind != "pick"]
                 for t in (targets if base.startswith("E_") else [rng.choice(targets)]):
                   out += state_jobs("C08", "vk.props.c08", "clause2", [base], dom, budget // 2 + 5, 1, tmo, rng, {"new": new, "policy": policy, "target": t, "odom": odom.to_json()}, tag="c2-%s-%s-op-%s" % (new.split(":")[-1], policy, slots[t].name), extra_params=[("ok", "int"), ("ov", "int")], extra_pre="0 <= ok <= 3 and " + op_value_bounds(slots[t], odom), extra_samples=lambda r: [r.randint(0, 3), 0], must_free=lambda a, b, t=t: [b[t].name])
